@@ -10,7 +10,7 @@
       the code uses (for the correspondence runs);
    E. instances of A for the data-independent quantizers of C02 / C03. *)
 From Coq Require Import ZArith QArith List Bool Lia Lqa.
-From QV Require Import Base.ZQ Base.FL Quant.Fixed Quant.FixedThm Quant.Po2 Quant.Po2Thm Quant.AutoScale.
+From QV Require Import Base.ZQ Base.FL Quant.Fixed Quant.FixedThm Quant.Po2 Quant.Po2Thm Quant.AutoScale Quant.BinTern.
 Import ListNotations.
 
 (* ============================ A. the export loop ============================ *)
@@ -203,3 +203,20 @@ Proof. intros H.
     eapply Forall_impl; [|exact Hl]. intros q [->|[c [Hc ->]]]; intros w; cbn; [reflexivity|].
     apply qb_tensor_idempotent; exact Hc. }
   split; [intros x; apply export_keeps_predictions; exact D | apply second_export_changes_nothing; exact D]. Qed.
+
+(* binary / ternary weights with a constant scale 1 (C04 codes): +-1 binary and ternary are idempotent, so they
+   are data independent in the sense of section A; the 0/1 binary is NOT (zero counts as positive) -- known finding *)
+Definition bin_val (use01 : bool) (x : rat) : rat := rofZ (bcode use01 x).
+Definition tern_val (thr x : rat) : rat := rofZ (tcode thr x).
+Theorem binary_pm1_idempotent x : bin_val false (bin_val false x) = bin_val false x.
+Proof. unfold bin_val, bcode, bsign, rofZ, rnum. cbn [fst]. destruct (fst x <? 0); reflexivity. Qed.
+Theorem binary_01_not_idempotent : exists x, bin_val true (bin_val true x) <> bin_val true x.
+Proof. exists (-1, 1). vm_compute. discriminate. Qed.
+Theorem ternary_idempotent thr x : 0 < rnum thr -> 0 < rden thr -> rnum thr <= rden thr ->
+  tern_val thr (tern_val thr x) = tern_val thr x.
+Proof. intros Hn Hd Hle. unfold tern_val, tcode, sgn3, rle, rabs, rofZ, rnum, rden in *. cbn [fst snd] in *.
+  destruct (fst thr * snd x <=? Z.abs (fst x) * snd thr) eqn:E; cbn [fst snd].
+  - destruct (fst x <? 0) eqn:N; [|destruct (0 <? fst x) eqn:P]; cbn [fst snd Z.abs];
+      repeat match goal with |- context [if ?b then _ else _] => destruct b eqn:? end; try reflexivity; try lia.
+  - repeat match goal with |- context [if ?b then _ else _] => destruct b eqn:? end; try reflexivity; try lia.
+Qed.
